@@ -36,7 +36,9 @@ META = {
                "numbers symbolic over ranges extending 2 below and several above the legal limits "
                "(thorough: 70000 below and above)",
                "events: 11 classes x 5 schemes; AmbiguousInstanceType and UnknownEvent",
-               "wrong-kind addresses and wrong-type arguments: concrete lists per argument position"],
+               "wrong-kind addresses and wrong-type arguments: concrete lists per argument position",
+               "before every decode an unrelated 24-bit frame and an ENABLE DEVICE TYPE frame with a symbolic "
+               "type are decoded (what was decoded before must not matter)"],
     "stubs": ["isinstance/int shims", "SymDict registries", "SymKeyDict for the map in symbolic mode"],
     "outside": ["bool passed where an int is expected", "ReservedInstance arguments",
                 "the Device (0xFE) instance byte on instance commands (excluded by the property)",
